@@ -12,6 +12,12 @@ import CtrlVerif.Props.C02
 #print axioms CtrlVerif.C02.T2_eq_E
 #print axioms CtrlVerif.C02.feedback_resp
 #print axioms CtrlVerif.C02.invQ_spec
+#print axioms CtrlVerif.C02.lft_resp
+#print axioms CtrlVerif.C02.lft_resp_inv
+#print axioms CtrlVerif.C02.push_through
+#print axioms CtrlVerif.C02.lft_illposed
+#print axioms CtrlVerif.C02.lft_wellposed
+#print axioms CtrlVerif.C02.lft_dispatch
 #print axioms CtrlVerif.C02.append_resp
 #print axioms CtrlVerif.C02.select_resp
 #print axioms CtrlVerif.C02.reindex_resp
